@@ -218,8 +218,12 @@ class Gen:
                 self.step_burst()
             elif x < 0.80:
                 _, name, c = r.choice(self.handlers)
-                self.steps.append({"k": "unregister", "name": name, "ctx": c})
-                self.steps.append({"k": "settle"})
+                if self.profile == "restart" and r.random() < 0.4:
+                    self.steps.append({"k": "settle"})
+                    self.steps.append({"k": "unregister", "name": name, "ctx": c, "kill": True})
+                else:
+                    self.steps.append({"k": "unregister", "name": name, "ctx": c})
+                    self.steps.append({"k": "settle"})
             elif x < 0.90 and self.profile in ("mixed", "restart"):
                 self.steps.append({"k": "settle"})
                 self.steps.append({"k": "restart"})
@@ -237,6 +241,7 @@ class Gen:
 def gen_scenario(seed, profile="mixed"):
     sc = Gen(seed, profile).build()
     sc["name"] = "gen-%s-%d" % (profile, seed)
+    sc["race_ping"] = seed % 2 == 0
     return sc
 
 
@@ -292,7 +297,7 @@ def run_impl(sc, keep_dir=False, settle_ms=250):
             if k == "serve":
                 stored = w.call({"op": "stream"})["ok"]
                 out["epochs"].append({"stored": stored, "tap": [], "sync": [], "first_step": i})
-                w.call({"op": "serve_all", "wait_ms": 150})
+                w.call({"op": "serve_all", "wait_ms": 150, "race_ping": bool(sc.get("race_ping"))})
                 serving = True
             elif k == "append":
                 obs = w.call(frame_op("append", st["topic"], ctx_hex(st["ctx"]), st.get("meta"), st.get("ttl"), st.get("content")))
@@ -308,6 +313,24 @@ def run_impl(sc, keep_dir=False, settle_ms=250):
                 obs = w.call(frame_op("append", st["name"] + ".register", ctx_hex(st["ctx"]), content=text))
                 if isinstance(obs.get("ok"), dict):
                     step_ids[i] = obs["ok"]["id"]
+            elif k == "unregister" and st.get("kill"):
+                # crash between the stored request and the handler's announcement: the process is killed when the
+                # `.unregistered` append begins
+                close_epoch()
+                w.call({"op": "arm_kill", "point": "append.enter", "suffix": ".unregistered"})
+                try:
+                    w.call(frame_op("append", st["name"] + ".unregister", ctx_hex(st["ctx"])))
+                    w.call({"op": "settle", "ms": 400, "max_ms": 3000})
+                    w.call({"op": "exit", "how": "kill"})      # nobody answered the request: plain kill
+                except S.WorkerDied:
+                    pass
+                w.close()
+                w = S.Worker()
+                w.call({"op": "open", "dir": d, "now": None, "gated": False})
+                stored = w.call({"op": "stream"})["ok"]
+                out["epochs"].append({"stored": stored, "tap": [], "sync": [], "first_step": i})
+                w.call({"op": "serve_all", "wait_ms": 150, "race_ping": bool(sc.get("race_ping"))})
+                w.call({"op": "settle", "ms": settle_ms, "max_ms": 8000})
             elif k == "unregister":
                 obs = w.call(frame_op("append", st["name"] + ".unregister", ctx_hex(st["ctx"])))
             elif k == "settle":
@@ -324,7 +347,7 @@ def run_impl(sc, keep_dir=False, settle_ms=250):
                 w.call({"op": "open", "dir": d, "now": None, "gated": False})
                 stored = w.call({"op": "stream"})["ok"]
                 out["epochs"].append({"stored": stored, "tap": [], "sync": [], "first_step": i})
-                w.call({"op": "serve_all", "wait_ms": 150})
+                w.call({"op": "serve_all", "wait_ms": 150, "race_ping": bool(sc.get("race_ping"))})
                 w.call({"op": "settle", "ms": settle_ms, "max_ms": 8000})
             out["steps"].append(obs)
         if out["epochs"]:
@@ -431,19 +454,45 @@ def meta_of(f):
 
 
 def loop_announcements(live):
-    """what the handler serve loop announced, in order: (kind, handler id hex)"""
+    """what the handler serve loop announced, in order: [kind, handler id hex, frame id hex | None] with kind
+    registered / rejected (script error) / superseded (a tail handler replaced before it subscribed)"""
     out = []
+    registered = set()
     for f in live:
         t = unhx(f["topic"])
         m = meta_of(f) or {}
         hid = m.get("handler_id")
         if not is_id_text(hid):
             continue
+        h = b36_to_hex(hid)
         if t.endswith(".registered") and "tail" in m:
-            out.append(["registered", b36_to_hex(hid)])
+            out.append(["registered", h, None])
+            registered.add(h)
         elif t.endswith(".unregistered") and "frame_id" not in m and "error" in m:
-            out.append(["unregistered", b36_to_hex(hid)])
+            out.append(["rejected", h, None])
+        elif t.endswith(".unregistered") and h not in registered and is_id_text(m.get("frame_id")) and "error" not in m:
+            out.append(["superseded", h, b36_to_hex(m["frame_id"])])
     return out
+
+
+def announcements_ok(starts, got):
+    """the model's start infos against the observed announcements; returns None or the first difference"""
+    if len(starts) != len(got):
+        return "count: model %d, impl %d" % (len(starts), len(got))
+    for s, g in zip(starts, got):
+        if s["hid"] != g[1]:
+            return "order / identity: model %s, impl %s" % (s["hid"][-6:], g[1][-6:])
+        if not s["valid"]:
+            if g[0] != "rejected":
+                return "%s: an invalid script must be rejected, impl %s" % (s["hid"][-6:], g[0])
+        elif g[0] == "registered":
+            pass            # whether it was superseded later is the instance check's business
+        elif g[0] == "superseded":
+            if s["superseded_by"] is None or s["superseded_by"] != g[2]:
+                return "%s: superseded by %s, model says %s" % (s["hid"][-6:], (g[2] or "")[-6:], (s["superseded_by"] or "none")[-6:])
+        else:
+            return "%s: a valid script was rejected" % s["hid"][-6:]
+    return None
 
 
 def handler_cfg(st, reg_frame):
@@ -481,16 +530,19 @@ def analyse(sc, res, drv):
         S_all = hist + live
         known_ids = {int(f["id"], 16) for f in S_all}
         # --- C16 / C17: who is started, in which order, announced how
-        want = drv.ask({"q": "compact", "history": [sframe(f) for f in hist], "live": [sframe(f) for f in live],
-                        "invalid": invalid})["announce"]
+        tails = [rid for rid, (i, st) in reg_steps.items() if not st["spec"].get("invalid") and st["spec"].get("resume", "tail") == "tail"]
+        ans = drv.ask({"q": "compact", "history": [sframe(f) for f in hist], "live": [sframe(f) for f in live],
+                       "invalid": invalid, "tail": tails})
+        starts, nh = ans["starts"], ans["n_history"]
         got = loop_announcements(live)
-        if want != got:
-            nh = len(drv.ask({"q": "compact", "history": [sframe(f) for f in hist], "live": [], "invalid": invalid})["announce"])
-            props = ["C17"] if want[:nh] != got[:nh] else ["C16"]
+        diff = announcements_ok(starts, got)
+        if diff:
+            props = ["C17"] if announcements_ok(starts[:nh], got[:nh]) else ["C16"]
             if e > 0 and "C17" not in props:
                 props.append("C17")
             fnd.append({"kind": "announce", "props": props, "epoch": e, "why": "handlers started / announced differ from the model",
-                        "model": [[k, h[-6:]] for k, h in want], "impl": [[k, h[-6:]] for k, h in got]})
+                        "diff": diff, "model": [[x["hid"][-6:], x["valid"], (x["superseded_by"] or "")[-6:]] for x in starts],
+                        "impl": [[k, h[-6:], (f or "")[-6:]] for k, h, f in got]})
         # --- C16: subscribed before `.registered` becomes visible
         seen = set()
         for point, hid in ep["sync"]:
@@ -500,13 +552,14 @@ def analyse(sc, res, drv):
                 fnd.append({"kind": "order", "props": ["C16"], "epoch": e, "handler": hid[-6:],
                             "why": "<name>.registered was visible before the handler had subscribed"})
         # --- C14 / C15: every started instance, replayed on the model
-        started = [h for k, h in got if k == "registered"]
+        started = [h for k, h, _ in got if k == "registered"]
         stamped = {}
         for idx, f in enumerate(live):
             m = meta_of(f) or {}
             hid = m.get("handler_id")
             if is_id_text(hid) and not (unhx(f["topic"]).endswith(".registered") and "tail" in m) \
-                    and not (unhx(f["topic"]).endswith(".unregistered") and "frame_id" not in m):
+                    and not (unhx(f["topic"]).endswith(".unregistered") and "frame_id" not in m) \
+                    and not ["superseded", b36_to_hex(hid), b36_to_hex(m["frame_id"]) if is_id_text(m.get("frame_id")) else None] in got:
                 stamped.setdefault(b36_to_hex(hid), []).append(f)
         for hid, fs in stamped.items():
             if hid not in started and hid in reg_steps:
@@ -532,7 +585,13 @@ def analyse(sc, res, drv):
                     fnd.append({"kind": "cas", "props": ["C15", "C10"], "epoch": e, "handler": hid[-6:],
                                 "why": "output frame delivered without its content in CAS", "frame": f["id"][-6:]})
             ok, best = False, None
+            own_traffic = lambda f: f["ctx"] == cfg["ctx"] and unhx(f["topic"]) in (st["name"] + ".register", st["name"] + ".unregister") \
+                and int(f["id"], 16) > int(hid, 16)
             for p in range(lo, pos_reg + 1):
+                # a tail handler that announced `.registered` had no registration traffic of its name stored before it
+                # subscribed (C16, `started_tail_not_superseded`): later subscription points are not executions of the model
+                if resume == "tail" and any(own_traffic(f) for f in (hist + live)[:len(hist) + p]):
+                    break
                 hpart = [f for f in hist + live[:p] if f.get("ttl") != "ephemeral"]
                 q = {"q": "handler", "cfg": cfg, "rules": model_rules(sp, res["ctxs"]), "env0": sp.get("env0", 0),
                      "resume": resume, "hist": [sframe(f) for f in hpart], "live": [sframe(f) for f in live[p:]]}
@@ -541,11 +600,29 @@ def analyse(sc, res, drv):
                 if want_o == actual:
                     ok = True
                     break
-                best = best or (want_o, m)
+                common = 0
+                for a, b in zip(want_o, actual):
+                    if a != b:
+                        break
+                    common += 1
+                score = (common, -abs(len(want_o) - len(actual)))
+                if best is None or score > best[2]:
+                    best = (want_o, m, score)
+            if not ok and best is None:
+                fnd.append({"kind": "superseded", "props": ["C16"], "epoch": e, "handler": hid[-6:], "name": st["name"],
+                            "why": "a tail handler announced <name>.registered although its name had been registered again / unregistered before"})
+                continue
             if not ok:
-                want_o, m = best
+                want_o, m, _ = best
                 trig = lambda l: [dict(x[2]).get("frame_id") for x in l]
                 props = ["C14"] if trig(want_o) != trig(actual) else ["C15"]
+                # an expected output that exists under another stamp / context was produced but mis-labelled
+                exp_keys = {(x[0], dict(x[2]).get("frame_id")) for x in want_o} - {(x[0], dict(x[2]).get("frame_id")) for x in actual}
+                for f in live:
+                    mf = sframe(f)
+                    fid = dict((k, v) for k, v in (mf.get("meta") or [])).get("frame_id")
+                    if (mf["topic"], fid) in exp_keys and f not in stamped.get(hid, []) and "C15" not in props:
+                        props.append("C15")
                 if any(x[1] != cfg["ctx"] for x in actual):
                     props.append("C06")
                 if len(actual) > len(want_o) and m["state"] == "stopped":
